@@ -302,6 +302,21 @@ def exec_fuzz(job):
     return traces + [{'_skip': x} for x in skips]
 
 
+def handmade():
+    E = lambda ms=NONE, pp=NONE, hp=NONE: {'op': 'enable', 'ms': ms, 'pp': pp, 'hp': hp}
+    P = lambda ms=NONE, pp=NONE: {'op': 'pulse', 'ms': ms, 'pp': pp}
+    A = lambda d: {'op': 'adv', 'd': d}
+    D = {'op': 'disable'}
+    return [
+        # repeated enable of a held coil must not push the hold watchdog back
+        [E(), A(300), A(300), E(), A(300), E(), A(300), A(1000), A(1000)],
+        # software-timed pulse with other requests in between
+        [P(300), A(100), E(), A(100), A(300), A(1000)],
+        [P(300), A(100), D, A(100), P(300), A(100), A(300), A(300)],
+        [E(), A(100), P(300), A(300), A(1000), A(1000)],
+    ]
+
+
 def run(ctx):
     mdir = write_machine(ctx.scratch)
     wd = tlc.prepare(ctx.scratch, 'Coil', 'coil')
@@ -317,8 +332,16 @@ def run(ctx):
     with open(wd + '/Gen.cfg', 'w') as f:
         f.write(mc_cfg(10, props=False))
     behs, _ = tlc.simulate(wd, 'CoilMC', 'Gen.cfg', num=400 if ctx.quick else 6000, depth=16 if ctx.quick else 22, seed=ctx.seed)
+    # a second stream over mostly-valid parameter values so that held / software-timed coils and their timers
+    # interleave with further requests (random picks over all classes are refused most of the time)
+    with open(wd + '/CoilMC.tla', 'w') as f:
+        f.write(mc_module(full=True).replace('MCMs == {%s}' % ', '.join(map(str, MS)), 'MCMs == {%d, 10, 30, 300}' % NONE)
+                .replace('MCPow == {%s}' % ', '.join(map(str, POW)), 'MCPow == {%d, 25, 50, 100}' % NONE)
+                .replace('MCTe == {%s}' % ', '.join(map(str, TEV)), 'MCTe == {%d, 100}' % NONE))
+    behs2, _ = tlc.simulate(wd, 'CoilMC', 'Gen.cfg', num=250 if ctx.quick else 4000, depth=18 if ctx.quick else 26, seed=ctx.seed + 11)
     rnd = random.Random(ctx.seed)
-    jobs = [(mdir, b[0]['cfg']['id'], [s['act'] for s in b], rnd.random() < 0.3) for b in behs]
+    jobs = [(mdir, b[0]['cfg']['id'], [s['act'] for s in b], rnd.random() < 0.3) for b in behs + behs2]
+    jobs += [(mdir, cid, sch, False) for cid in (3, 4, 5, 6) for sch in handmade()]
     traces = harness.pmap(exec_schedule, jobs, chunk=8)
     ctx.log('api schedules executed: %d' % len(traces))
     fuzz_jobs = [('/repo/mpf/tests/machine_files/' + d, f, ctx.seed * 100 + k)
